@@ -126,7 +126,7 @@ func runExec(oc *fw.Outcome, e *Exec, verbose bool) {
 		oc.NonTrivialS(e.Mode + "|" + e.Scope + "|" + program)
 	}
 	for _, f := range fs {
-		con := e.Con
+		con, what := e.Con, f.what
 		d := detail(e, program, o, extra)
 		// localisation: a combination is re-run with each of its parts alone; when a part alone shows the
 		// same violation the finding belongs to that part's construct
@@ -137,7 +137,7 @@ func runExec(oc *fw.Outcome, e *Exec, verbose bool) {
 			hit := false
 			for _, f2 := range fs2 {
 				if f2.prefix == f.prefix {
-					hit = true
+					hit, what = true, f2.what
 				}
 			}
 			if hit {
@@ -147,7 +147,7 @@ func runExec(oc *fw.Outcome, e *Exec, verbose bool) {
 				break
 			}
 		}
-		oc.Violate(f.prefix+con, f.what, d)
+		oc.Violate(f.prefix+con, what, d)
 	}
 	switch o.class {
 	case "harness-error":
@@ -217,6 +217,9 @@ func topFrames(st string, n int) string {
 		}
 		if !started && (strings.HasPrefix(l, "runtime/debug.Stack") || strings.HasPrefix(l, "verif/harness/fw.Guard")) {
 			continue
+		}
+		if started && (strings.HasPrefix(l, "verif/harness/") || strings.HasPrefix(l, "main.")) {
+			break // below this line the stack is the harness
 		}
 		loc := strings.TrimSpace(lines[i+1])
 		if j := strings.Index(loc, " +0x"); j > 0 {
